@@ -78,6 +78,10 @@ pub fn program_pool(rng: &mut Rng, n: usize) -> Vec<(String, Option<String>, Vec
     for (_, k, src, st) in crate::c03::boundary_programs(if n > 20 { 6 } else { 2 }) {
         v.push((src, k, st, vec![]));
     }
+    // range-checker gaps of special sizes (powers of three, multiples of the largest stride)
+    for (_, k, src, st) in crate::c03::range_gap_programs(rng.next(), if n > 20 { 40 } else { 6 }) {
+        v.push((src, k, st, vec![]));
+    }
     for i in 0..n {
         let d = rng.below(3) as u32;
         let l = 1 + rng.below(4) as usize;
